@@ -105,6 +105,15 @@ type GDoc struct {
 	ExtMuxes  []GExtMux
 	Tags      map[string]int // generator bookkeeping for the distribution histogram
 	Mutated   bool           // the generator broke the document on purpose
+	PadZeros  bool           // integers of BO_ / SG_ / VAL_ / VAL_TABLE_ written with leading zeros (still decimal)
+}
+
+// num renders an unsigned integer, zero-padded when the document asks for it (010 is ten, not eight)
+func (d *GDoc) num(x uint32) string {
+	if d.PadZeros {
+		return strings.Repeat("0", 1+int(x%2)) + strconv.FormatUint(uint64(x), 10)
+	}
+	return strconv.FormatUint(uint64(x), 10)
 }
 
 func fmtF(f float64) string { return strconv.FormatFloat(f, 'f', -1, 64) }
@@ -152,13 +161,13 @@ func (d *GDoc) Emit() string {
 	for _, vt := range d.ValTables {
 		fmt.Fprintf(b, "VAL_TABLE_ %s", vt.Name)
 		for _, v := range vt.Vals {
-			fmt.Fprintf(b, " %d \"%s\"", v.ID, v.Name)
+			fmt.Fprintf(b, " %s \"%s\"", d.num(v.ID), v.Name)
 		}
 		b.WriteString(";\n")
 	}
 	b.WriteString("\n")
 	for _, m := range d.Msgs {
-		fmt.Fprintf(b, "BO_ %d %s : %d %s\n", m.ID, m.Name, m.Size, m.Tx)
+		fmt.Fprintf(b, "BO_ %s %s : %s %s\n", d.num(m.ID), m.Name, d.num(m.Size), m.Tx)
 		for _, s := range m.Sigs {
 			fmt.Fprintf(b, " SG_ %s", s.Name)
 			if s.Muxed && s.Muxor {
@@ -175,7 +184,7 @@ func (d *GDoc) Emit() string {
 			if s.Signed {
 				sg = "-"
 			}
-			fmt.Fprintf(b, " : %d|%d@%s%s (%s,%s) [%s|%s] \"%s\" %s\n", s.Start, s.Size, bo, sg,
+			fmt.Fprintf(b, " : %s|%s@%s%s (%s,%s) [%s|%s] \"%s\" %s\n", d.num(s.Start), d.num(s.Size), bo, sg,
 				fmtF(s.Factor), fmtF(s.Offset), fmtF(s.Min), fmtF(s.Max), s.Unit, strings.Join(s.Receivers, ","))
 		}
 		b.WriteString("\n")
@@ -230,9 +239,9 @@ func (d *GDoc) Emit() string {
 		b.WriteString(fmtNum(a.V) + ";\n")
 	}
 	for _, v := range d.ValEncs {
-		fmt.Fprintf(b, "VAL_ %d %s", v.Msg, v.Sig)
+		fmt.Fprintf(b, "VAL_ %s %s", d.num(v.Msg), v.Sig)
 		for _, x := range v.Vals {
-			fmt.Fprintf(b, " %d \"%s\"", x.ID, x.Name)
+			fmt.Fprintf(b, " %s \"%s\"", d.num(x.ID), x.Name)
 		}
 		b.WriteString(";\n")
 	}
